@@ -138,6 +138,19 @@ def gen(tier, rng):
             cases.append(Case(sess.session(calls), sig="\n".join(base) + "\n30 REM tail\n#entered by: " + entry, tag="direct-entry",
                               meta=("dsame", 100000 + pi * 10 + len(entry), None)))
         pi += 1
+    # (c2') a branch to a code-less line behind the program's closing END: the inserted unreachable END must not become the end
+    # of the program (the target line starts behind it), whatever kind of code-less line it is and however the branch is made
+    ei = 800000
+    for trail in ("50 REM EXIT", "50 DATA 1,2", "50 :", "50 ' x"):
+        for branch in ("IF X<3 THEN 50", "IF X<3 THEN GOTO 50", "ON X GOTO 50,50", "IF X>=3 THEN 30 ELSE 50"):
+            pa = ['10 X=X+1:PRINT X;', '20 ' + branch, '30 PRINT "DONE";:RETURN', trail]
+            pb = sorted(pa + ['40 END'], key=lambda l: int(l.split(" ")[0]))
+            for entry in ("GOSUB 10", 'GOSUB 10:PRINT "BACK"'):
+                ca = ["R5000"] + [sess.E(l) for l in pa] + [sess.E(entry), "R5000"]
+                cb = ["R5000"] + [sess.E(l) for l in pb] + [sess.E(entry), "R5000"]
+                cases.append(Case(sess.session(ca), sig="\n".join(pa) + "\n#entered by: " + entry, tag="end-then-codeless", meta=("dbase", ei, None)))
+                cases.append(Case(sess.session(cb), sig="\n".join(pb) + "\n#entered by: " + entry, tag="end-then-codeless", meta=("dsame", ei, None)))
+                ei += 1
     # (c3) direct statements that refer to a line of the stored program by number, with that line numbered low, high, and with
     # the highest legal number (the marker of the direct code sorts right behind it)
     DIRECT_REFS = ['GOSUB {d}:PRINT "BACK"', "RESTORE {d}:READ A:PRINT A", "RUN {d}", "GOTO {d}", 'ON 1 GOSUB {d}:PRINT "B2"',
